@@ -337,16 +337,13 @@ var simPinCount uint64
 //go:linkname simGetPinCount runtime.simGetPinCount
 func simGetPinCount() uint64 { return simPinCount }
 
+// simNextRand returns the value pinned for the current scheduler step. It is a
+// constant per step, not a sequence: draws made by lazily initialised process-wide
+// state (which happen in the first run that reaches them and never again) must not
+// shift the values later draws of the same step see.
+//
 //go:nosplit
 func simNextRand() uint64 {
 	simPinCount++
-	x := simPinRand
-	x ^= x << 13
-	x ^= x >> 7
-	x ^= x << 17
-	if x == 0 {
-		x = 0x9e3779b97f4a7c15
-	}
-	simPinRand = x
-	return x * 0x2545F4914F6CDD1D
+	return simPinRand
 }
